@@ -270,7 +270,12 @@ BezHolds(c) ==
                                      LET d == Sub2(R.P[Len(R.P)], R.P[1])
                                          d2 == Dot2(d, d)
                                      IN (\E L \in 0..2000 : L * L = d2) => (R.lenEx /\ IsSquareOf(d2, R.len))
-BezClauses == {"panic", "Eval:casteljau", "Polynomials:casteljau", "Split:casteljau", "Split:re-eval", "Transpose:swap",
+      \* "approximates the arclength of the curve within the given margin of error" (1e-6 here): the polyline
+      \* through 16384 exact samples is shorter than the curve by less than 1e-6 for these small control polygons,
+      \* and arc length is additive under Split
+      [] c = "Length:arc" -> BOk => R.lenArc <= -5
+      [] c = "Length:additive" -> BOk => R.lenAdd <= -5
+BezClauses == {"panic", "Length:arc", "Length:additive", "Eval:casteljau", "Polynomials:casteljau", "Split:casteljau", "Split:re-eval", "Transpose:swap",
                "CurveTranspose:swap", "InverseX:inverse", "EvalX:value", "CurveInverseX:inverse", "Length:straight"}
 
 ---------------------------------------------------------------------------
